@@ -125,6 +125,9 @@ def run_check(pid, tier, seed, replay=None):
                 cases = [c["case"] for c in replay.get("cases", [])]
             else:
                 cases = list(prop.corpus()) + list(prop.generate(rng, tier))
+                if tier == "thorough":     # several independent generator passes (fresh PRNG streams derived from the seed)
+                    for k in range(1, int(os.environ.get("VERIF_THOROUGH_ROUNDS", getattr(prop, "THOROUGH_ROUNDS", 3)))):
+                        cases += list(prop.generate(random.Random(seed * 104729 + k), tier))
             if cases:
                 recs, err = core.run_pipeline(harness, cases)
                 fails, diffs = evaluate(prop, recs)
